@@ -956,6 +956,48 @@ def fam_fillna(rng):
     return Case("fillna %s %s" % (fl.tokens(), lay.tokens()), expect_value(ref, "fill_none(%r, %r)" % (vals, fill)), {"value": vals})
 
 
+LAYOUT_SUBFAMILIES = ["reduce_ragged", "reduce_rect", "num", "flatten", "localindex", "rpad", "combinations", "sort", "argsort",
+                      "getitem_basic", "carry_range", "astype", "fields", "fillna"]
+
+
+def fam_layout_independent(rng):
+    """C02 (metamorphic): the same operation on two physical layouts of one value -- a random one and the compact
+    canonical one (ListOffsetArray64 from 0, IndexedOptionArray64, contiguous NumpyArray) -- gives equal values and the
+    same success-or-error outcome"""
+    sub = rng.choice(LAYOUT_SUBFAMILIES)
+    L.Enc.LAST = None
+    inner = None
+    for _ in range(10):
+        inner = FAMILIES[sub][0](rng)
+        if inner is not None:
+            break
+    if inner is None or L.Enc.LAST is None:
+        return None
+    vals, T, lay = L.Enc.LAST
+    tok = lay.tokens()
+    if not inner.line.endswith(tok):
+        return None
+    canon = L.Enc(rng, style="canonical").encode(vals, T)
+    lineA = inner.line
+    lineB = inner.line[:len(inner.line) - len(tok)] + canon.tokens()
+    what = "`%s` on %r" % (inner.line[:len(inner.line) - len(tok)].strip(), vals)
+
+    def norm(v):
+        return v
+
+    def check(r):
+        if r.status != "OK":
+            return ("value", "%s: %s" % (what, r))
+        a, b = r.value
+        ea, eb = isinstance(a, nrun._E), isinstance(b, nrun._E)
+        if ea != eb:
+            return ("value", "%s: the random layout %s, the compact copy %s" % (what, "raises " + a if ea else "gives %r" % (a,), "raises " + b if eb else "gives %r" % (b,)))
+        if not ea and not loose_unordered(a, b):
+            return ("value", "%s: the random layout gives %r, the compact copy of the same value gives %r" % (what, a, b))
+        return None
+    return Case("both %d %s %s" % (len(lineA.split()), lineA, lineB), check, {"value": vals, "type": T})
+
+
 def fam_convert(rng):
     """C02/C09: conversions among encodings keep the value: toListOffsetArray64, toRegularArray, option-encoding
     conversions, simplify_optiontype, shallow_simplify, deep_copy, project (drops exactly the missing values), bytemask"""
@@ -1466,6 +1508,7 @@ FAMILIES = {
     "reduce_ragged": (fam_reduce_ragged, ["C03"]),
     "reduce_rect": (fam_reduce_rect, ["C03"]),
     "tolist": (fam_tolist, ["C02"]),
+    "layout_independent": (fam_layout_independent, ["C02"]),
     "carry_range": (fam_carry_range, ["C02", "C01"]),
     "getitem_basic": (fam_getitem_basic, ["C01"]),
     "getitem_array": (fam_getitem_array, ["C01"]),
